@@ -26,7 +26,7 @@ class Harness(object):
     self.g = g = {
         '__name__': 'mcprog_%s' % pid,
         'c': dn(env.c), 'it': dn(env.it), 'it2': dn(env.it2), 't': dn(env.t), 'cm': dn(env.cm),
-        'mark': dn(env.mark), 'E': tapemod.E, 'G': 9,
+        'mark': dn(env.mark), 'E': tapemod.E, 'E2': tapemod.E2, 'G': 9,
     }
     if extra_globals:
       g.update(extra_globals)
